@@ -14,6 +14,8 @@ Lemma cl_poll_next_pops_front : fact_poll_next_pops_front = true. Proof. reflexi
 Lemma cl_poll_next_takes_backpressure : fact_poll_next_takes_backpressure = true. Proof. reflexivity. Qed.
 Lemma cl_poll_next_stores_waker : fact_poll_next_stores_waker = true. Proof. reflexivity. Qed.
 Lemma cl_pending_arm_sets_notify_closed : fact_pending_arm_sets_notify_closed = true. Proof. reflexivity. Qed.
+Lemma cl_pipe_unbounded_loop : fact_pipe_unbounded_loop = true. Proof. reflexivity. Qed.
+Lemma cl_pipe_core_weak : fact_pipe_core_weak = true. Proof. reflexivity. Qed.
 Lemma cl_pipe_waker_one_shot : fact_pipe_waker_one_shot = true. Proof. reflexivity. Qed.
 Lemma cl_pipe_context_weak_upgrade : fact_pipe_context_weak_upgrade = true. Proof. reflexivity. Qed.
 
